@@ -117,10 +117,28 @@ class CliExit(Exception):
   pass
 
 
+TAINTED = [False]     # the modules in sys.modules are those of a finished CLI process
+
+
+def own_process():
+  """Back in the long-lived process of the history after a CLI invocation."""
+  if TAINTED[0]:
+    TAINTED[0] = False
+    lrun.fresh_process()
+
+
 def run_cli(world, path, pred, command='run_to_csv'):
-  """The real entry point: `logica.py <file> run_to_csv|run_in_terminal <pred>` run as __main__."""
+  """The real entry point: `logica.py <file> run_to_csv|run_in_terminal <pred>` run as __main__.
+  Every invocation is a process of its own: fresh modules before, and again after it so that
+  nothing of it leaks into the long-lived process of the history."""
+  try:
+    return _run_cli(world, path, pred, command, lrun.fresh_process())
+  finally:
+    TAINTED[0] = True
+
+
+def _run_cli(world, path, pred, command, m):
   import runpy
-  m = lrun.mods()
   old_out, old_argv = sys.stdout, sys.argv
   sys.stdout = io.StringIO()
   sys.argv = ['logica.py', path, command, pred]
@@ -152,6 +170,8 @@ def expect_table(p, R):
 
 def run_history(case, scratch):
   """Executes the history; returns (violations, info)."""
+  lrun.fresh_process()      # one case = the life of one (simulated) process
+  TAINTED[0] = False
   info = {'fired': Counter(), 'configured': Counter(), 'probes': Counter(), 'statements': 0,
           'states': set(), 'transitions': set(), 'completed_runs': 0, 'nontrivial': False,
           'discard': None}
@@ -283,10 +303,12 @@ def run_history(case, scratch):
           if parsed != want_csv:
             V('cli-output', 'csv', 'printed CSV %s differs from the rows of the final statement %s' % (parsed[:5], want_csv[:5]), i)
         elif path == 'script':
+          own_process()
           comp = lrun.compiled(text, preds)
           _, last = lrun.run_script(world, comp, preds[0])
           res = {preds[0]: last.result}
         else:
+          own_process()
           comp = lrun.compiled(text, preds)
           res = lrun.run_concertina(world, comp, preds)
       except sqlworld.TooExpensive:
